@@ -21,13 +21,15 @@
 //! row `key:bits,key:bits,..` sorted by key, and `win` = `min:max` of the
 //! `ScoresIterator` after the step (`-` for C12).
 
-use lightmotif::abc::{Background, Dna};
+use generic_array::GenericArray;
+use lightmotif::abc::{Alphabet, Background, Dna, Protein};
 use lightmotif::dense::DenseMatrix;
-use lightmotif::num::U5;
+use lightmotif::num::{Unsigned, U5};
 use lightmotif::pwm::{CountMatrix, ScoringMatrix};
 use lightmotif_tfmpvalue::TfmPvalue;
 use lmh::*;
 
+/// alphabet size of the DNA cases (the protein cases have 21 columns)
 const K: usize = 5;
 
 // ---------------------------------------------------------------- Debug parsing
@@ -198,35 +200,50 @@ fn state_of(dbg: &str, scores_iter: bool) -> Option<String> {
 
 struct Case {
     m: usize,
-    mat: Vec<[f32; K]>,
-    bg: [f32; K],
+    k: usize,
+    mat: Vec<Vec<f32>>,
+    bg: Vec<f32>,
     q: f64,
     steps: usize,
 }
 
 fn parse_case(f: &std::collections::HashMap<String, String>) -> Case {
-    let mat: Vec<[f32; K]> = f["mat"]
+    let mat: Vec<Vec<f32>> = f["mat"]
         .split('/')
-        .map(|r| {
-            let v: Vec<f32> = r.split(',').map(|x| f32::from_bits(x.parse::<u32>().unwrap())).collect();
-            [v[0], v[1], v[2], v[3], v[4]]
-        })
+        .map(|r| r.split(',').map(|x| f32::from_bits(x.parse::<u32>().unwrap())).collect())
         .collect();
-    let b: Vec<f32> = f["bg"].split(',').map(|x| f32::from_bits(x.parse::<u32>().unwrap())).collect();
+    let bg: Vec<f32> = f["bg"].split(',').map(|x| f32::from_bits(x.parse::<u32>().unwrap())).collect();
     Case {
         m: mat.len(),
+        k: bg.len(),
         mat,
-        bg: [b[0], b[1], b[2], b[3], b[4]],
+        bg,
         q: f64::from_bits(f["q"].parse::<u64>().unwrap()),
         steps: f["steps"].parse().unwrap(),
     }
 }
 
-fn build(c: &Case) -> Option<ScoringMatrix<Dna>> {
-    let bg = Background::<Dna>::new(c.bg).ok()?;
-    let mut data = DenseMatrix::<f32, U5>::new(c.m);
+fn build<A: Alphabet>(c: &Case) -> Option<ScoringMatrix<A>> {
+    if c.bg.len() != A::K::USIZE || c.mat.iter().any(|r| r.len() != A::K::USIZE) {
+        return None;
+    }
+    let arr: GenericArray<f32, A::K> = GenericArray::from_slice(&c.bg).clone();
+    // `Background::uniform()` is not always accepted by `Background::new` (twenty times 0.05f32
+    // do not sum to 1.0f32): build it the way a user would
+    let bg = match Background::<A>::new(arr) {
+        Ok(b) => b,
+        Err(_) => {
+            let u = Background::<A>::uniform();
+            if u.frequencies() == &c.bg[..] {
+                u
+            } else {
+                return None;
+            }
+        }
+    };
+    let mut data = DenseMatrix::<f32, A::K>::new(c.m);
     for i in 0..c.m {
-        for j in 0..K {
+        for j in 0..A::K::USIZE {
             data[i][j] = c.mat[i][j];
         }
     }
@@ -234,7 +251,23 @@ fn build(c: &Case) -> Option<ScoringMatrix<Dna>> {
 }
 
 fn run_c12(c: &Case) -> String {
-    let pssm = match build(c) {
+    if c.k == 21 {
+        run_c12_g::<Protein>(c)
+    } else {
+        run_c12_g::<Dna>(c)
+    }
+}
+
+fn run_c13(c: &Case) -> String {
+    if c.k == 21 {
+        run_c13_g::<Protein>(c)
+    } else {
+        run_c13_g::<Dna>(c)
+    }
+}
+
+fn run_c12_g<A: Alphabet>(c: &Case) -> String {
+    let pssm = match build::<A>(c) {
         Some(p) => p,
         None => return "bgerr".to_string(),
     };
@@ -282,8 +315,8 @@ fn run_c12(c: &Case) -> String {
     format!("it={} fin={}", its.join(";"), fin)
 }
 
-fn run_c13(c: &Case) -> String {
-    let pssm = match build(c) {
+fn run_c13_g<A: Alphabet>(c: &Case) -> String {
+    let pssm = match build::<A>(c) {
         Some(p) => p,
         None => return "bgerr".to_string(),
     };
@@ -347,10 +380,13 @@ fn run_c13(c: &Case) -> String {
 
 struct Mat {
     m: usize,
-    mat: Vec<[f32; K]>,
-    bg: [f32; K],
+    k: usize,
+    mat: Vec<Vec<f32>>,
+    bg: Vec<f32>,
     mk: &'static str,
     bgk: &'static str,
+    /// cells are multiples of 1/grid (exact reference by convolution over the grid), 0 = enumerate all words
+    grid: i64,
 }
 
 /// background with dyadic frequencies (exact in f32, exact sum 1)
@@ -540,16 +576,125 @@ fn gen_matrix(rng: &mut Rng) -> Mat {
     if m >= 3 && rng.chance(1, 8) {
         mat[m - 1] = mat[0];
     }
-    Mat { m, mat, bg, mk, bgk }
+    Mat { m, k: K, mat: mat.iter().map(|r| r.to_vec()).collect(), bg: bg.to_vec(), mk, bgk, grid: 0 }
 }
 
-/// all words over the 4 non-wildcard symbols: (score as f64 sum of the f32 cells, probability)
+/// background over `n` symbols + wildcard: uniform (1/n as f32, whose f64 sum may exceed 1),
+/// dyadic non-uniform (counts over a power of two) or with wildcard mass
+fn gen_bg_n(rng: &mut Rng, n: usize) -> (Vec<f32>, &'static str) {
+    let r = rng.below(100);
+    if r < 40 {
+        let mut b = vec![1.0 / n as f32; n];
+        b.push(0.0);
+        (b, "uni")
+    } else {
+        let wild = r >= 88;
+        let den: u32 = if n > 8 { 256 } else { 64 };
+        let w = if wild { 1 + rng.below(den as u64 / 8) as u32 } else { 0 };
+        // n positive counts summing to den - w
+        let mut c = vec![1u32; n];
+        let mut left = den - w - n as u32;
+        while left > 0 {
+            let i = rng.below(n as u64) as usize;
+            let x = 1 + rng.below(left.min(den / 8) as u64) as u32;
+            c[i] += x;
+            left -= x;
+        }
+        let mut b: Vec<f32> = c.iter().map(|&x| x as f32 / den as f32).collect();
+        b.push(w as f32 / den as f32);
+        (b, if wild { "wild" } else { "nonuni" })
+    }
+}
+
+/// protein matrices (K = 21) and wide motifs on a coarse grid
+fn gen_matrix_ext(rng: &mut Rng) -> Mat {
+    let r = rng.below(100);
+    if r < 35 {
+        // small protein motif, arbitrary cells: all 20^M words are enumerated
+        let m = 2 + rng.below(2) as usize;
+        let (bg, bgk) = gen_bg_n(rng, 20);
+        let den = *rng.pick(&[1024.0f32, 4.0, 10.0]);
+        let mut mat = vec![vec![0f32; 21]; m];
+        for row in mat.iter_mut() {
+            for j in 0..20 {
+                row[j] = rng.range(-6 * den as i64, 4 * den as i64) as f32 / den;
+            }
+            row[20] = f32::NEG_INFINITY;
+        }
+        if bgk == "wild" && rng.chance(1, 3) {
+            for row in mat.iter_mut() {
+                row[20] = rng.range(-12, 4) as f32 / 2.0;
+            }
+        }
+        Mat { m, k: 21, mat, bg, mk: "prot", bgk, grid: 0 }
+    } else if r < 55 {
+        // DNA, width 7..8 (16 384 / 65 536 words)
+        let m = 7 + rng.below(2) as usize;
+        let (bg, bgk) = gen_bg_n(rng, 4);
+        let den = *rng.pick(&[1024.0f32, 16.0]);
+        let mut mat = vec![vec![0f32; 5]; m];
+        for row in mat.iter_mut() {
+            for j in 0..4 {
+                row[j] = rng.range(-6 * den as i64, 3 * den as i64) as f32 / den;
+            }
+            row[4] = f32::NEG_INFINITY;
+        }
+        Mat { m, k: 5, mat, bg, mk: "dnawide", bgk, grid: 0 }
+    } else {
+        // wide motifs on a 1/4 grid: protein width 4..14, DNA width 9..22
+        let prot = rng.chance(2, 3);
+        let n = if prot { 20 } else { 4 };
+        // half of the protein motifs are wide enough (10..14) for exact tails far below 1e-12
+        let m = if prot {
+            if rng.chance(1, 2) { 10 + rng.below(5) as usize } else { 4 + rng.below(6) as usize }
+        } else {
+            9 + rng.below(14) as usize
+        };
+        let (bg, bgk) = gen_bg_n(rng, n);
+        let grid = 4i64;
+        let mut mat = vec![vec![0f32; n + 1]; m];
+        for row in mat.iter_mut() {
+            // a conserved position: one or two high cells, the others low
+            let hi = rng.range(2, 9);
+            for j in 0..n {
+                row[j] = rng.range(-10, 1) as f32 / grid as f32;
+            }
+            let nh = 1 + rng.below(2) as usize;
+            for _ in 0..nh {
+                let j = rng.below(n as u64) as usize;
+                row[j] = (hi - rng.below(2) as i64) as f32 / grid as f32;
+            }
+            row[n] = f32::NEG_INFINITY;
+        }
+        Mat { m, k: n + 1, mat, bg, mk: if prot { "protgrid" } else { "dnagrid" }, bgk, grid }
+    }
+}
+
+/// exact distribution of the score over the non-wildcard symbols, sorted by score:
+/// (score as f64 sum of the f32 cells, probability); equal scores are merged when the cells
+/// lie on a grid (convolution), otherwise all words are enumerated
 fn enumerate(mx: &Mat) -> Vec<(f64, f64)> {
+    let n = mx.k - 1;
+    if mx.grid > 0 {
+        let mut cur: std::collections::BTreeMap<i64, f64> = std::collections::BTreeMap::new();
+        cur.insert(0, 1.0);
+        for i in 0..mx.m {
+            let mut nxt: std::collections::BTreeMap<i64, f64> = std::collections::BTreeMap::new();
+            for (&s, &p) in cur.iter() {
+                for j in 0..n {
+                    let c = (mx.mat[i][j] as f64 * mx.grid as f64).round() as i64;
+                    *nxt.entry(s + c).or_insert(0.0) += p * mx.bg[j] as f64;
+                }
+            }
+            cur = nxt;
+        }
+        return cur.into_iter().map(|(s, p)| (s as f64 / mx.grid as f64, p)).collect();
+    }
     let mut out = vec![(0.0f64, 1.0f64)];
     for i in 0..mx.m {
-        let mut nxt = Vec::with_capacity(out.len() * 4);
+        let mut nxt = Vec::with_capacity(out.len() * n);
         for &(s, p) in out.iter() {
-            for j in 0..4 {
+            for j in 0..n {
                 nxt.push((s + mx.mat[i][j] as f64, p * mx.bg[j] as f64));
             }
         }
@@ -561,9 +706,11 @@ fn enumerate(mx: &Mat) -> Vec<(f64, f64)> {
 
 fn show_case(id: &str, mx: &Mat, qk: &str, nt: bool, steps: usize, q: f64) -> String {
     format!(
-        "{} M={} mk={} bgk={} qk={} nt={} steps={} mat={} bg={} q={}",
+        "{} M={} abc={} ref={} mk={} bgk={} qk={} nt={} steps={} mat={} bg={} q={}",
         id,
         mx.m,
+        if mx.k == 21 { "prot" } else { "dna" },
+        if mx.grid > 0 { "conv" } else { "enum" },
         mx.mk,
         mx.bgk,
         qk,
@@ -583,7 +730,9 @@ fn gen(prop: &str, seed: u64, n: usize, tier: &str) {
     let mut rng = Rng::new(seed ^ if prop == "c13" { 0x1313 } else { 0x1212 });
     let mut id = 0usize;
     while id < n {
-        let mx = gen_matrix(&mut rng);
+        // one matrix in eight: protein alphabet / wide motif (gen_matrix_ext)
+        let ext = rng.chance(1, 8);
+        let mx = if ext { gen_matrix_ext(&mut rng) } else { gen_matrix(&mut rng) };
         let words = enumerate(&mx);
         let lo = words[0].0;
         let hi = words[words.len() - 1].0;
@@ -611,9 +760,22 @@ fn gen(prop: &str, seed: u64, n: usize, tier: &str) {
                 let u = rng.below(1_000_001) as f64 / 1_000_000.0;
                 queries.push(("rand", lo - 0.3 + (hi - lo + 0.6) * u));
             }
+            // a few 1e-8 / 1e-9 below an attainable score: the refinement only converges at
+            // granularity 1e-8 and below and has mass exactly in the band the property constrains
+            let nd = if ext { 3 } else { 1 };
+            for _ in 0..nd {
+                let s = *rng.pick(&distinct);
+                let unit = *rng.pick(&[1e-8f64, 1e-9, 1e-7]);
+                queries.push(("attdeep", s - (mx.m as f64 + 1.5) * unit));
+            }
+            if ext {
+                // far below the minimum (whole window below the lowest integer score)
+                queries.push(("below", lo - 2.0 - rng.below(50) as f64));
+            }
         } else {
             // exact tails (f64 approximations of them) at the distinct scores
             let mut tails: Vec<f64> = vec![];
+            let mut stails: Vec<(f64, f64)> = vec![];
             let mut acc = 0.0f64;
             let mut i = words.len();
             while i > 0 {
@@ -623,6 +785,7 @@ fn gen(prop: &str, seed: u64, n: usize, tier: &str) {
                     i -= 1;
                 }
                 tails.push(acc);
+                stails.push((s, acc));
             }
             tails.retain(|&t| t > 0.0 && t < 1.0);
             let nt = 3 + rng.below(3) as usize;
@@ -637,6 +800,47 @@ fn gen(prop: &str, seed: u64, n: usize, tier: &str) {
                     let k = rng.below(tails.len() as u64 - 1) as usize;
                     let u = (1 + rng.below(9)) as f64 / 10.0;
                     queries.push(("between", tails[k] + (tails[k + 1] - tails[k]) * u));
+                }
+            }
+            if ext {
+                // p-values between the tails of the best words (tiny: below 1e-12 for wide protein
+                // motifs) and between the largest tails (close to 1)
+                for k in 0..tails.len().saturating_sub(1).min(4) {
+                    let u = (1 + rng.below(3)) as f64 / 4.0;
+                    queries.push(("between", tails[k] + (tails[k + 1] - tails[k]) * u));
+                }
+                let n = tails.len();
+                for k in (n.saturating_sub(3)..n.saturating_sub(1)).rev() {
+                    queries.push(("between", tails[k] + (tails[k + 1] - tails[k]) * 0.5));
+                }
+                if let Some(&t0) = tails.first() {
+                    queries.push(("tiny", t0 * *rng.pick(&[0.5f64, 0.1, 1e-3])));
+                    // p-values below 1e-12 that exceed the tail a good way (1.5 d at granularity 0.1)
+                    // below the maximal score: a threshold above the maximum is then wrong by more
+                    // than the slack of the property
+                    let d0 = (mx.m as f64 + 2.0) * 0.1;
+                    if let Some(&(_, tb)) = stails.iter().find(|st| st.0 <= hi - 1.5 * d0) {
+                        if tb > 0.0 && tb < 1e-12 {
+                            for _ in 0..3 {
+                                let u = (1 + rng.below(999)) as f64 / 1000.0;
+                                let lp = tb.ln() + (1e-12f64.ln() - tb.ln()) * u;
+                                queries.push(("tiny", lp.exp()));
+                            }
+                        }
+                    }
+                    // p-values below 1e-12 that are still well above the smallest tails
+                    if t0 < 1e-13 {
+                        for _ in 0..3 {
+                            let u = (1 + rng.below(999)) as f64 / 1000.0;
+                            let lp = t0.ln() + (1e-12f64.ln() - t0.ln()) * u;
+                            queries.push(("tiny", lp.exp()));
+                        }
+                    }
+                }
+            }
+            for p in [0.9f64, 0.99, 0.999999] {
+                if rng.chance(1, 4) {
+                    queries.push(("near1", p));
                 }
             }
             if mx.mk == "cluster" {
@@ -667,7 +871,15 @@ fn gen(prop: &str, seed: u64, n: usize, tier: &str) {
                 qk == "between"
             };
             // mostly 3..maxsteps calls of next(); one case in ten runs deep (granularity down to 1e-10)
-            let deep = if mx.mk == "lattice" || mx.mk == "decimal" || mx.mk == "coarse" { 3 } else { 10 };
+            let deep = if qk == "attdeep" {
+                1
+            } else if ext {
+                2
+            } else if mx.mk == "lattice" || mx.mk == "decimal" || mx.mk == "coarse" {
+                3
+            } else {
+                10
+            };
             let steps = if rng.chance(1, deep) {
                 9 + rng.below(3) as usize
             } else {
@@ -733,7 +945,7 @@ fn main() {
             for line in stdin_lines() {
                 let (_id, f) = fields(&line);
                 let c = parse_case(&f);
-                let pssm = build(&c).unwrap();
+                let pssm = build::<Dna>(&c).unwrap();
                 let mut tfmp = TfmPvalue::new(&pssm);
                 if prop == "c12" {
                     let mut it = tfmp.approximate_pvalue(c.q);
